@@ -61,7 +61,8 @@ def nest(t):
 
 WIDTH_KINDS = ["stmt", "decl", "fhead", "proto", "global", "define", "include", "ctrl", "comment_line",
                "comment_eol_global", "comment_block", "block_first", "block_interior", "block_last",
-               "block_interior_tab", "stmt_string_tail"]
+               "block_interior_tab", "stmt_string_tail", "stmt_string_tab", "comment_line_tab", "define_string_tab",
+               "global_string"]
 
 
 def width_case(kind, n, t, pos, final_nl, r):
@@ -77,7 +78,7 @@ def width_case(kind, n, t, pos, final_nl, r):
     if kind == "stmt":
         if t < 1:
             return None
-        line = pad_to(tabs + 'ft_g("', "x", '");', n)
+        line = pad_to(tabs + 'ft_g("', r.choice("xabc"), '");', n)
         where = "body"
     elif kind == "stmt_string_tail":
         # the last token *starts* before column 81 and ends after it
@@ -85,6 +86,24 @@ def width_case(kind, n, t, pos, final_nl, r):
             return None
         line = pad_to(tabs + 'b = ft_g(a, "', "y", '");', n)
         where = "body"
+    elif kind == "stmt_string_tab":
+        # a raw tab inside a string literal advances to the next tab stop
+        if t < 1:
+            return None
+        line = pad_to(tabs + 'ft_g("', r.choice("xyzw"), ['\tq");', '\tqq");', '\tqqq");', '\tqqqq");'], n)
+        where = "body"
+    elif kind == "comment_line_tab":
+        if t:
+            return None
+        line = pad_to("// a\t", r.choice("klmn"), ["\tend", "\ten", "\te", "\tendd"], n)
+    elif kind == "define_string_tab":
+        if t:
+            return None
+        line = pad_to('#define MSG "a\t', r.choice("mno"), ['\tz"', '\tzz"', '\tzzz"', '\tzzzz"'], n)
+    elif kind == "global_string":
+        if t:
+            return None
+        line = pad_to('static char\t*g_s = "', r.choice("stuv"), '";', n)
     elif kind == "decl":
         if t != 1:
             return None
@@ -119,7 +138,7 @@ def width_case(kind, n, t, pos, final_nl, r):
     elif kind == "comment_line":
         if t:
             return None
-        line = pad_to("// ", "k", "", n)
+        line = pad_to("// ", r.choice("k+;{"), "", n)
     elif kind == "comment_eol_global":
         if t:
             return None
@@ -127,7 +146,7 @@ def width_case(kind, n, t, pos, final_nl, r):
     elif kind == "comment_block":
         if t:
             return None
-        line = pad_to("/* ", "b", " */", n)
+        line = pad_to("/* ", r.choice("b=(,"), " */", n)
     elif kind in ("block_first", "block_interior", "block_last", "block_interior_tab"):
         if t:
             return None
